@@ -82,7 +82,16 @@ class ModeRules:
     def make(self, ts, enc, typ, term_iv=True):
         """Build the stream object with the real factory and constructors (key/iv symbolic)."""
         prog = self.prog
-        I = TermInterp(prog, ts, models=dict(models.STD_MODELS))
+        strcopies = []
+
+        class _Str:
+            def on_strwrite(self_, I_, st_, node, dst, args, argnodes, bounded):
+                # a string function (stops at the first zero byte) applied to the IV or the key
+                for a in args[1:]:
+                    if a is not None and a[0] == 'p' and a[1] in (IVSRC, KEY):
+                        strcopies.append((nloc(node), (node.get('callee') or {}).get('q'), 'IV' if a[1] == IVSRC else 'key'))
+        I = TermInterp(prog, ts, listeners=[_Str()], models=dict(models.STD_MODELS))
+        I.strcopies = strcopies
         st = interp.State()
         for i in range(16):
             st.mem[(KEY, (i,))] = ('tb', ts.v('k%d' % i))
@@ -182,8 +191,13 @@ class ModeRules:
                 ivok = all(c == ('tb', ts.v('iv%d' % i)) for i, c in enumerate(cells0))
                 if not ivok and any(c is None or c[0] not in ('tb', 'c') for c in cells0):
                     ivok = None         # the register is not where / what the analysis can read: no verdict
-                rec.ob('R10.i', 'R10.i@%s::initial-register' % cls, ivok, '%s:%s' % (f['file'], f['line']),
-                       '%s object starts from the first 16 bytes of the IV handed to the factory' % cls)
+                sc_ = getattr(I, 'strcopies', [])
+                if sc_:
+                    # binary data copied with a C-string function: everything behind the first zero byte is lost (zero-filled)
+                    ivok = False
+                rec.ob('R10.i', 'R10.i@%s::initial-register' % cls, ivok, sc_[0][0] if sc_ else '%s:%s' % (f['file'], f['line']),
+                       '%s object starts from the first 16 bytes of the IV handed to the factory%s' % (
+                           cls, '' if not sc_ else ': NO, the %s is copied with %s, which stops at the first zero byte' % (sc_[0][2], sc_[0][1])))
                 # one step on a symbolic block
                 log = []
                 I2 = TermInterp(prog, ts, models=dict(models.STD_MODELS))
@@ -301,53 +315,76 @@ class ModeRules:
         cls = dyn[1]
         f = prog.functions.get(prog.resolve_virtual(next(x['id'] for x in self.base['methods'] if x['n'] == 'runcry'), cls))
         where = '%s:%s' % (f['file'], f['line'])
-        bad, und = [], []
-        for k in range(16, -1, -1):     # k = index of the lowest-order byte that is not 0xFF; 16 -> hmm use -1 for all 0xFF
-            kk = k - 1                   # kk in 15..-1
-            s = st.copy()
-            for j in range(16):
-                l = (obj[0], obj[1] + (self.ivf, j))
-                if j > kk:
-                    s.mem[l] = C(0xff)
-                elif j == kk:
-                    s.sym['c%d' % j] = (0, 254)
-                    s.mem[l] = sym('c%d' % j)
-                else:
-                    s.sym['c%d' % j] = (0, 255)
-                    s.mem[l] = sym('c%d' % j)
-            for i in range(16):
-                s.mem[(BLK, (i,))] = TOP
+        stores = set()
 
-            def m_blk(I3, st3, fr, n, this, args, an):
-                p = args[0]
-                if p[0] == 'p' and p[2] and isinstance(p[2][-1], int):
-                    for i in range(16):
-                        st3.mem[(p[1], p[2][:-1] + (p[2][-1] + i,))] = TOP
-                return [(st3, ('void',))]
-            I3 = interp.Interp(prog, models=dict(models.STD_MODELS))
-            for q in self.blockfn:
-                I3.models[q] = m_blk
-            I3.concrete_loops = True
-            r3 = I3.run(f, s, this=P(*obj), args=[P(BLK, (0,))])
-            rec.saw(I3)
-            if I3.unmodelled:
-                und.append((kk, str(I3.unmodelled[0])))
-                continue
-            for s4, _ in r3:
+        class _St:
+            def on_store(self_, I_, st_, loc, val, node):
+                if loc is not None and loc[0] == obj[0] and loc[1][:len(obj[1])] == obj[1] and len(loc[1]) == len(obj[1]) + 1 \
+                        and isinstance(loc[1][-1], str) and loc[1][-1] != self.ivf and val[0] == 'c':
+                    stores.add((loc, val))
+
+        def partition(preset):
+            bad, und = [], []
+            for k in range(16, -1, -1):     # k = index of the lowest-order byte that is not 0xFF; 16 -> hmm use -1 for all 0xFF
+                kk = k - 1                   # kk in 15..-1
+                s = st.copy()
+                for l_, v_ in preset:
+                    s.mem[l_] = v_
                 for j in range(16):
-                    got = s4.mem.get((obj[0], obj[1] + (self.ivf, j)))
+                    l = (obj[0], obj[1] + (self.ivf, j))
                     if j > kk:
-                        want = C(0)
+                        s.mem[l] = C(0xff)
                     elif j == kk:
-                        want = L(1, {'c%d' % j: 1})
+                        s.sym['c%d' % j] = (0, 254)
+                        s.mem[l] = sym('c%d' % j)
                     else:
-                        want = sym('c%d' % j)
-                    if got != want:
-                        if got is None or got == TOP or got[0] in ('r', 's', 'ptop'):
-                            und.append((kk, 'byte %d became %s' % (j, show(got) if got else '?')))
+                        s.sym['c%d' % j] = (0, 255)
+                        s.mem[l] = sym('c%d' % j)
+                for i in range(16):
+                    s.mem[(BLK, (i,))] = TOP
+
+                def m_blk(I3, st3, fr, n, this, args, an):
+                    p = args[0]
+                    if p[0] == 'p' and p[2] and isinstance(p[2][-1], int):
+                        for i in range(16):
+                            st3.mem[(p[1], p[2][:-1] + (p[2][-1] + i,))] = TOP
+                    return [(st3, ('void',))]
+                I3 = interp.Interp(prog, listeners=[_St()], models=dict(models.STD_MODELS))
+                for q in self.blockfn:
+                    I3.models[q] = m_blk
+                I3.concrete_loops = True
+                r3 = I3.run(f, s, this=P(*obj), args=[P(BLK, (0,))])
+                rec.saw(I3)
+                if I3.unmodelled:
+                    und.append((kk, str(I3.unmodelled[0])))
+                    continue
+                for s4, _ in r3:
+                    for j in range(16):
+                        got = s4.mem.get((obj[0], obj[1] + (self.ivf, j)))
+                        if j > kk:
+                            want = C(0)
+                        elif j == kk:
+                            want = L(1, {'c%d' % j: 1})
                         else:
-                            bad.append((kk, 'byte %d became %s, expected %s' % (j, show(got), show(want))))
-                        break
+                            want = sym('c%d' % j)
+                        if got != want:
+                            if got is None or got == TOP or got[0] in ('r', 's', 'ptop'):
+                                und.append((kk, 'byte %d became %s' % (j, show(got) if got else '?')))
+                            else:
+                                bad.append((kk, 'byte %d became %s, expected %s' % (j, show(got), show(want))))
+                            break
+            return bad, und
+        bad, und = partition(())
+        # a scalar member that the step itself sets (a flag, a cache) is part of the object state the next step starts from: the
+        # increment must be the same from every value the step has been seen to store there
+        extra = []
+        for l_, v_ in sorted(stores, key=str):
+            if st.mem.get(l_) == v_:
+                continue
+            b2, u2 = partition(((l_, v_),))
+            extra.append((l_[1][-1], show(v_)))
+            bad += [(kk, '%s (with member %s = %s, a value the step itself stores)' % (d_, l_[1][-1], show(v_))) for kk, d_ in b2]
+            und += u2
         ok = not bad and not und
         rec.ob('R10.c', 'R10.c@%s::counter-increment' % fkey(f), (False if bad else (None if und else True)), where,
                '128-bit big-endian counter + 1 for all 17 carry patterns (bytes 15..k+1 = 0xFF, byte k < 0xFF, rest free; and all 0xFF): %s' % (
